@@ -151,7 +151,12 @@ fn one_case(ctx: &mut Ctx, idx: usize, w: &World, w2: &World) {
     let book = ctx.book.clone();
     let mut a = Agreed::random(ctx);
     // balances with room in both directions
-    a.cb = match ctx.prng.gen_range(0..4) { 0 => 0, 1 => i64::MAX as u64, _ => ctx.prng.gen::<u64>() >> ctx.prng.gen_range(2..60) };
+    a.cb = match ctx.prng.gen_range(0..5) {
+        0 => 0, 1 => i64::MAX as u64,
+        // base-128 digit patterns: powers of 128 and their neighbours (digits 1,0,..,0 / 127,..,127 / 1,0,..,d)
+        2 => { let p = 1u64 << (7 * ctx.prng.gen_range(1..9u32)); match ctx.prng.gen_range(0..3) { 0 => p, 1 => p - 1, _ => p + ctx.prng.gen_range(1..128u64) } }
+        _ => ctx.prng.gen::<u64>() >> ctx.prng.gen_range(2..60),
+    };
     a.mb = match ctx.prng.gen_range(0..4) { 0 => 0, _ => (ctx.prng.gen::<u64>() >> ctx.prng.gen_range(2..60)).min(i64::MAX as u64 - a.cb) };
     let mut s = match open_session(ctx, w, &a) { Some(s) => s, None => return };
     // a history of 0..3 honest payments leading to the pay token under test
